@@ -10,7 +10,11 @@
 (*   lost     an object the design keeps live is dead            (C03)     *)
 (*   twice    a box was released twice / used after release      (C03)     *)
 (*   markidx  the mark phase computed an index outside the vector (C03)    *)
-(*   leak     an object the design releases is still live        (C04)     *)
+(*   leak     an object the design releases when the collector is DROPPED  *)
+(*            is still live                                      (C04)     *)
+(*   kept-garbage  an object the design releases at a COLLECTION is still  *)
+(*            live after it                                      (C04)     *)
+(*   leak-early    the same at any other operation               (C04)     *)
 (*   unmanaged the collector's managed set differs otherwise               *)
 (***************************************************************************)
 EXTENDS Integers, Sequences, FiniteSets, TLC, Json, IOUtils
@@ -22,6 +26,11 @@ Next == UNCHANGED pid
 
 ToSet(s) == {s[i] : i \in 1..Len(s)}
 
+(* objects the design has released and the real collector has not, that were not already in that state after the *)
+(* previous operation: the operation at which garbage is first kept decides the class                          *)
+Kept(r, i) == IF i = 0 THEN {} ELSE ToSet(r.obs[i].live) \ ToSet(r.ops[i].live)
+NewlyKept(r, i) == Kept(r, i) \ Kept(r, i - 1)
+
 Findings ==
   LET r == Recs[pid] IN
   UNION {
@@ -31,7 +40,9 @@ Findings ==
     IN (IF ~(elive \subseteq olive) THEN {[at |-> i, class |-> "lost"]} ELSE {})
        \cup (IF o.double_free > 0 \/ o.dead_deref > 0 THEN {[at |-> i, class |-> "twice"]} ELSE {})
        \cup (IF o.mark_index > 0 THEN {[at |-> i, class |-> "markidx"]} ELSE {})
-       \cup (IF (elive \subseteq olive) /\ elive # olive THEN {[at |-> i, class |-> "leak"]} ELSE {})
+       \cup (IF (elive \subseteq olive) /\ NewlyKept(r, i) # {}
+             THEN {[at |-> i, class |-> IF e.op[1] = "drop" THEN "leak" ELSE IF e.op[1] = "collect" THEN "kept-garbage" ELSE "leak-early"]}
+             ELSE {})
        \cup (IF eman # oman /\ ~(eman \subseteq oman /\ (oman \ eman) \subseteq (olive \ elive))
              THEN {[at |-> i, class |-> "unmanaged"]} ELSE {})
     : i \in 1..Len(r.ops)}
